@@ -124,8 +124,12 @@ def run(ck):
                 flips=0, truncations=0, bursts_lsb=0, bursts_msb=0, random_tails=0, steered_tails=0, header_faults=0, crc_buffers=0,
                 nano_vm_runs=0)
 
-    # ---- the line batch: (line, kind, meta)
+    # ---- the line batch: (line, kind, meta); corpus first
     batch = []
+    cdir = os.path.join(vlib.VERIF, 'corpus', 'C12')
+    for fn in sorted(os.listdir(cdir)) if os.path.isdir(cdir) else []:
+        if fn.endswith('.hex'):
+            batch.append(('load ' + open(os.path.join(cdir, fn)).read().strip(), 'corpus', fn))
     SMALL = 1200 if ck.thorough else 420
     for name, f, ret in files:
         hx = nvmlib.hexs(f)
@@ -221,6 +225,8 @@ def run(ck):
             if a != 'NULL':
                 capped(ck, kind + '-accepted', 'c12:%s-accepted:%s:%s' % (kind, name, what), 'damaged file (%s) is accepted' % what,
                         dict(engine='nvm_probe(asan)', input=l[:6000], file=name, fault=what))
+        elif kind == 'corpus':
+            ck.count(('corpus', meta), True)      # model/impl agreement is checked above; known inputs are classified below
         elif kind == 'crc':
             dist['crc_buffers'] += 1
             ck.count(l, len(l) > 6)
